@@ -440,6 +440,7 @@ Val World::randomValue(Rng &R, FKind k, int flavour) const
         case FK_MTB:
             return Val::b(R.chance(flavour == 1 ? 1 : 1, flavour == 1 ? 4 : 2));
         case FK_MTI: {
+            if (flavour == 4) { static const long sv[] = { 1, 1, 0, -1, 2, 1 }; return Val::n(sv[R.below(6)]); }
             if (flavour == 1 && R.chance(2, 3)) return Val::n(0);
             if (flavour == 2) {
                 if (R.chance(1, 3)) return Val::n(-1);
@@ -448,12 +449,14 @@ Val World::randomValue(Rng &R, FKind k, int flavour) const
             return Val::n(R.range(-8, 8));
         }
         case FK_MTR: {
+            if (flavour == 4) { static const double sv[] = { 1.0, 1.0, 0.0, -1.0, 2.0, 0.5 }; return Val::r(sv[R.below(6)]); }
             if (flavour == 1 && R.chance(2, 3)) return Val::r(0.0);
             return Val::r(double(R.range(-64, 64)) / 4.0);
         }
         case FK_EVP: case FK_IDX: {
             if (flavour == 1 && R.chance(2, 3)) return Val::pinf(Val::I);
             if (R.chance(1, 4)) return Val::pinf(Val::I);
+            if (flavour == 4) { static const long sv[] = { 0, 0, 1, 1, 2, 0 }; if (R.chance(1, 5)) return Val::pinf(Val::I); return Val::n(sv[R.below(6)]); }
             if (flavour == 3) {
                 // EV+ edge values are longs: values around and beyond the
                 // 32-bit boundaries (stored in 4-byte node slots pairwise)
